@@ -75,7 +75,7 @@ PROGRAMS = [
     P('rmw_1x_rmw_2x', r(1, 'x'), w(1, 'x', 'x'), r(2, 'x'), w(2, 'x', 'x')),
     P('rmw_2y', r(2, 'y'), w(2, 'y', 'y')),
     P('rmw_x_flush_rmw_y', r(1, 'x'), w(1, 'x', 'x'), ('flush',), r(1, 'y'), w(1, 'y', 'y')),
-    P('ry_load_wx', r(1, 'y'), ('load', 1), w(1, 'x')),
+    P('ry_refetch_wx', r(1, 'y'), ('refetch', 1), w(1, 'x')),
     P('del_1', ('del', 1)),
     P('rx_del_1', r(1, 'x'), ('del', 1)),
     P('new_3', ('new', 3)),
@@ -83,9 +83,9 @@ PROGRAMS = [
 BY_NAME = {p['name']: p for p in PROGRAMS}
 TRIPLE_CORE = ['rmw_x', 'ry_wx', 'blind_y', 'rmw_f', 'fu_rmw_x', 'del_1']
 QUICK_CORE = ['rmw_x', 'rmw_s', 'ry_wx', 'rx_wy', 'x_from_y', 'blind_x', 'blind_y', 'rmw_f', 'rf_wx', 'blind_f', 'rn_wx', 'blind_n',
-              'rv_wx', 'blind_v', 'rf_rz_wx', 'blind_z', 'qx_wy', 'fu_rmw_x', 'ry_then_fu_wx', 'nonopt_rmw_x', 'ry_load_wx', 'del_1']
+              'rv_wx', 'blind_v', 'rf_rz_wx', 'blind_z', 'qx_wy', 'fu_rmw_x', 'ry_then_fu_wx', 'nonopt_rmw_x', 'ry_refetch_wx', 'del_1']
 QUICK_TRIPLE_CORE = ['rmw_x', 'ry_wx', 'blind_y', 'fu_rmw_x']
-XCHECK = [('rmw_x', 'ry_wx'), ('rmw_x', 'fu_rmw_x'), ('blind_y', 'ry_load_wx')]
+XCHECK = [('rmw_x', 'ry_wx'), ('rmw_x', 'fu_rmw_x'), ('blind_y', 'ry_refetch_wx')]
 
 def work_items(ctx):
     names = [p['name'] for p in PROGRAMS]
@@ -141,7 +141,7 @@ def pg_part(ctx):
         orm.core.local.db_session = None
         db.disconnect()
         if res is not None:
-            ctx.violation('pg-emission|session-failed|%s' % prog['name'], dict(program=prog, error=res), 'PostgreSQL model run failed: ' + res)
+            ctx.violation('pg-emission|session-failed|%s' % res.split(':')[0], dict(program=prog, error=res), 'PostgreSQL model run failed: ' + res)
             continue
         locked = prog['flags'].get('optimistic') is False
         for i, (kind, sql, args, autocommit) in enumerate(log):
